@@ -21,6 +21,8 @@ structure Verdict where
   nontrivial : Bool := false
   /-- malformed line -/
   bad : Bool := false
+  /-- a secondary tie that is recorded, not judged (counted per key in the summary) -/
+  info : Option String := none
 
 def Verdict.badLine (msg : String) : Verdict := { bad := true, modelOut := msg }
 
